@@ -915,13 +915,33 @@ C17.manifest = {
             "the candidate HashMap), C17_neighbor_weights_order_independent (the weights towards neighbouring "
             "communities do not depend on the iteration order of the neighbour HashSet), C17_edge_order_canonical (the "
             "order in which generate_graph accumulates aggregated weights does not depend on the iteration order of "
-            "the edge HashMap). The model has no other hidden "
+            "the edge HashMap). Round 2 composes them into theorems about the WHOLE algorithm: Model/LouvainOrd.v is "
+            "the same pipeline with the iteration order of every hash container that reaches order-sensitive code "
+            "(candidate map, successor / predecessor sets, edge map of generate_graph) supplied by an arbitrary stateful "
+            "oracle whose only property is that each answer is a permutation of the container's content; "
+            "C17_louvain_partitions_hash_order_independent and C17_louvain_communities_hash_order_independent: for "
+            "every such oracle, oracle state, graph state (coherent or not), weighted flag, resolution, threshold, "
+            "shuffle table and fuels the oracle-driven function EQUALS the executed model (same Ok value, Err, panic "
+            "site, OutOfFuel); per stage: C17_compute_one_level_hash_order_independent, "
+            "C17_generate_graph_hash_order_independent. The side conditions of the local lemmas are discharged "
+            "(C17_weights2com_keys_distinct, C17_sorted_neighbours_canonical, C17_working_graph_edge_keys_distinct: "
+            "every working graph is WF and single-edge, the first one whatever the input state). Non-vacuity by "
+            "vm_compute on the 4-cycle and the 12-cycle with a reversing and a stateful rotating oracle "
+            "(C17_hash_order_oracles_satisfy_hypotheses, C17_hash_order_nonvacuous); control "
+            "C17_raw_scan_is_order_sensitive (without the sort the order is observable). The model has no other hidden "
             "input: the shuffle order is an explicit argument derived from the seed.",
     "note": "Reproducibility across repeated calls (20x in process), rayon pools of 1/4/16 threads and 3 fresh "
             "processes is OBSERVED on the implementation by the oracle (outputs identical as sets of sets / node list + "
             "sorted edge list) for seeded louvain_partitions, louvain_communities and fast_gnp_random_graph (directed "
             "and undirected) on tie-rich graphs with weights 1 and 0.1/0.2/0.3; it is not a theorem about std's "
-            "RandomState, rayon or binary64 rounding. fast_gnp_random_graph has no model here (it belongs to C16); the "
+            "RandomState, rayon or binary64 rounding. The whole-algorithm theorems quantify over the iteration order "
+            "at the order-sensitive sites of louvain.rs (DESIGN 0.10.8 lists all hash-iteration sites of the call tree; "
+            "no uncanonicalised one was found); iterations that only feed another hash container (set difference / "
+            "union / extend / collect) keep the model's list representation - for them only local content-level lemmas are "
+            "proved (C17_generate_graph_part_order_free, C17_set_ops_content_only, "
+            "C17_convert_back_community_order_free), not composed - and the f64 sums inside degree.rs / "
+            "query.rs / partitions.rs (sum_sorted) are exact rationals in the model - their order-freedom in binary64 is "
+            "observed, not proved. fast_gnp_random_graph has no model here (it belongs to C16); the "
             "sentence about all non-randomised algorithms is covered only for modularity (C12 correspondence) and the "
             "Louvain sub-steps. Louvain runs with integer weights are also compared with the Coq model (tie-free runs "
             "exactly). Defect F17 repaired (fix: 6c1ce46: deterministic candidate order + float sums accumulated in a "
